@@ -206,6 +206,8 @@ def cases(tier, r):
     yield 'value', {'seed': r.getrandbits(48), 'depth': r.choice([1, 2, 3])}
   for _ in range(400 if tier == 'quick' else 6000):
     yield 'document', {'seed': r.getrandbits(48), 'depth': 2, 'tamper': True}
+  for i in range(12 if tier == 'quick' else 120):
+    yield 'shared_key', {'seed': r.getrandbits(48), 'shared_key': i % 4}
 
 
 def strict_json(s):
@@ -243,7 +245,44 @@ def contains_special_float(v):
   return walk(v)
 
 
+def run_shared_key(case):
+  """One memoizable object used as a dict KEY and, elsewhere, as a value: the reconstruction has
+  ONE object in all those places."""
+  r = random.Random(case['seed'])
+  k = [frozenset({1, 2}), graphs.NT(1, 's'), (1, ('a', 2)), frozenset({(1, 2), 3})][case['shared_key']]
+  order = r.random() < 0.5
+  inner = {k: 'as-key', 'other': k} if order else {'other': k, k: 'as-key'}
+  v = fdl.Config(lit, p=k, q={k: r.randint(0, 9)}, r=[inner, {k: k}]) if r.random() < 0.6 else \
+      fdl.Config(lit, q={k: 1}, k=[k])
+  obs = {'shared_key': True}
+  try:
+    back = serialization.load_json(serialization.dump_json(v))
+  except Exception as e:
+    obs['result'] = f'raised {type(e).__name__}: {e}'[:200]
+    return obs, None
+
+  def places(c):
+    out = []
+    a = c.__arguments__
+    if 'p' in a:
+      out.append(a['p'])
+    out.append(next(iter(a['q'])))
+    if 'r' in a:
+      out += [x for x in a['r'][0] if not isinstance(x, str)] + [a['r'][0]['other']]
+      out += [next(iter(a['r'][1])), next(iter(a['r'][1].values()))]
+    if 'k' in a:
+      out.append(a['k'][0])
+    return out
+  ps = places(back)
+  obs['result'] = all(x is ps[0] for x in ps) and ps[0] == k and type(ps[0]) is type(k)
+  if obs['result'] is not True:
+    obs['result'] = f'{len({id(x) for x in ps})} distinct objects in {len(ps)} places of one shared object'
+  return obs, None
+
+
 def execute(case):
+  if case.get('shared_key') is not None:
+    return run_shared_key(case)
   r = random.Random(case['seed'])
   g = Gen(r)
   v = g.buildable(case['depth']) if r.random() < 0.7 else g.value(case['depth'])
@@ -463,6 +502,8 @@ _drv = {}
 
 def compare(real, model):
   """Correspondence for the two modelled parts: the bytes codec and the policy gate."""
+  if real.get('shared_key'):
+    return []
   if 'drv' not in _drv:
     _drv['drv'] = common.Driver()
   drv = _drv['drv']
@@ -495,6 +536,11 @@ def compare(real, model):
 
 
 def oracle(case, real):
+  if real.get('shared_key'):
+    if real['result'] is not True:
+      return {'what': 'an object shared between a dict key and other places is not one object after load_json',
+              'observed': real['result']}
+    return None
   if real['dump'] != 'ok':
     if real.get('input_unchanged') is False:
       return {'what': 'a failing dump_json modified its input'}
@@ -544,6 +590,8 @@ def classify(case, fail):
 
 
 def nontrivial(case, real):
+  if real.get('shared_key'):
+    return ('shared_key', case['seed'])
   if real['dump'] != 'ok':
     return None
   if case.get('tamper'):
